@@ -203,9 +203,13 @@ impl SwiftField for Field25AccountIdentification {
     {
         // Try to determine variant based on content
         // If it contains a newline or looks like it has a BIC at the end, it's Option P
+        // A BIC is ASCII: only look for one at the end of an ASCII content (the byte offsets
+        // below would otherwise fall inside a multi-byte character)
         if input.contains('\n')
-            || (input.len() > 8 && parse_bic(&input[input.len().saturating_sub(11)..]).is_ok())
-            || (input.len() > 8 && parse_bic(&input[input.len().saturating_sub(8)..]).is_ok())
+            || (input.is_ascii()
+                && input.len() > 8
+                && (parse_bic(&input[input.len().saturating_sub(11)..]).is_ok()
+                    || parse_bic(&input[input.len().saturating_sub(8)..]).is_ok()))
         {
             Ok(Field25AccountIdentification::P(Field25P::parse(input)?))
         } else {
